@@ -1,14 +1,12 @@
 (** C07, "only documented parse errors": an invariant of the parse machine
-    under which every operation either succeeds or raises ParseError (plus
-    ValueError from [int()] when [strict = false]); AttributeError, KeyError,
-    TypeError and fluidity's InvalidTransition are unreachable. *)
+    under which every operation either succeeds or raises ParseError;
+    AttributeError, KeyError, TypeError, ValueError and fluidity's
+    InvalidTransition are unreachable.  (Since repair 401bc73 a failing [int()]
+    in see_value / see_positional_arg is turned into a ParseError: [checked].) *)
 From InvokeVerif Require Import Model.ParserModel Proofs.C07_fuel.
 From Coq Require Import Lia.
 
 Section Errors.
-(** [strict = true]: no int-valued (non-counter) argument anywhere, so not even
-    ValueError can arise.  [strict = false]: ValueError is tolerated. *)
-Variable strict : bool.
 
 Definition is_num (v : aval) : bool := match v with AInt _ | ABool _ => true | _ => false end.
 Definition is_alist (v : aval) : bool := match v with AList _ => true | _ => false end.
@@ -17,12 +15,14 @@ Definition int_valued (a : argspec) : bool :=
   akind_eqb (a_kind a) KInt && negb (a_incrementable a).
 
 (** Static well-formedness of an argument: it has a name; a counter starts
-    from a number; a list argument is not value-optional. *)
+    from a number; a list argument is not value-optional; an argument called
+    "help" is not int-valued (the --help special case assigns a task name to it
+    outside the guarded [set_arg_value]). *)
 Definition arg_wf (a : argspec) : bool :=
   match a_names a with [] => false | _ => true end
   && (negb (a_incrementable a) || is_num (a_default a))
   && (negb (akind_eqb (a_kind a) KList) || a_incrementable a || negb (a_optional a))
-  && (negb strict || negb (int_valued a)).
+  && negb (int_valued a && String.eqb (arg_name a) "help").
 
 Definition rarg_ok (r : rarg) : bool :=
   arg_wf (r_spec r)
@@ -44,7 +44,7 @@ Definition parser_wf (p : parser) : bool :=
   match p_initial p with Some ic => ctx_wf ic | None => false end
   && forallb ctx_wf (p_ctxs p).
 
-Definition allowed (e : err) : Prop := e = EParse \/ (strict = false /\ e = EValue).
+Definition allowed (e : err) : Prop := e = EParse.
 
 (** What stays fixed while the machine works inside one context. *)
 Definition shape_of (c : rctx) : option string * list argspec :=
@@ -208,25 +208,21 @@ Lemma set_value_ok r v cast :
   rarg_ok r = true -> vcond r v = true ->
   match set_value r v cast with
   | Ok r' => rarg_ok r' = true /\ r_spec r' = r_spec r
-  | Err e => allowed e
+  | Err e => e = EValue /\ int_valued (r_spec r) = true /\ (exists s, v = IStr s)
   end.
 Proof.
   destruct r as [a raw val]. unfold set_value, new_value, vcond, arg_value. simpl.
   intros Hok Hc. pose proof Hok as Hok'. unfold rarg_ok in Hok'. simpl in Hok'.
   apply andb_true_iff in Hok'. destruct Hok' as [W Hv].
-  assert (Hs : negb strict || negb (int_valued a) = true).
-  { unfold arg_wf in W. rewrite !andb_true_iff in W. tauto. }
   destruct (a_incrementable a) eqn:Inc.
   - destruct val; try discriminate; simpl; (split; [|reflexivity]);
       unfold rarg_ok; simpl; rewrite W, Inc; reflexivity.
-  - unfold int_valued in Hs. rewrite Inc in Hs.
-    destruct (a_kind a) eqn:K.
+  - destruct (a_kind a) eqn:K.
     + destruct cast; [destruct v|]; simpl;
         (split; [apply mk_ok; auto; left; rewrite K; reflexivity | reflexivity]).
     + destruct cast; [destruct v as [s|b]; [destruct (parse_int s)|]|]; simpl;
         try (split; [apply mk_ok; auto; left; rewrite K; reflexivity | reflexivity]).
-      unfold allowed. right. split; [|reflexivity].
-      revert Hs. destruct strict; simpl; [discriminate | reflexivity].
+      split; [reflexivity|]. split; [|eauto]. unfold int_valued. simpl. rewrite K, Inc. reflexivity.
     + destruct cast; [destruct v|]; simpl;
         (split; [apply mk_ok; auto; left; rewrite K; reflexivity | reflexivity]).
     + simpl in Hv. destruct val; try discriminate. simpl.
@@ -265,18 +261,46 @@ Proof.
   - unfold same_frame, shape, set_ctxs; simpl. repeat split; auto.
 Qed.
 
-Lemma set_arg_value_L m f v cast :
+(** raw: the only possible error is the ValueError of [int()] *)
+Lemma set_arg_value_R m f v cast :
   invc m = true ->
   (forall r, get_arg m f = Some r -> vcond r v = true) ->
-  L m (set_arg_value m f v cast).
+  match set_arg_value m f v cast with
+  | Ok m' => invc m' = true /\ same_frame m m'
+  | Err e => e = EValue /\ exists r s, get_arg m f = Some r /\ int_valued (r_spec r) = true /\ v = IStr s
+  end.
 Proof.
   intros I Hc. unfold set_arg_value.
   destruct (get_arg m f) as [r|] eqn:G.
   - pose proof (invc_get_arg _ _ _ I G) as Okr.
     pose proof (set_value_ok r v cast Okr (Hc r eq_refl)) as S.
-    destruct (set_value r v cast) as [r'|e]; simpl; [|exact S].
-    destruct S as [S1 S2]. eapply put_arg_frame; eauto.
+    destruct (set_value r v cast) as [r'|e]; simpl.
+    + destruct S as [S1 S2]. eapply put_arg_frame; eauto.
+    + destruct S as [E [Iv [s Es]]]. split; [exact E|]. eauto.
   - simpl. split; [exact I | apply same_frame_refl].
+Qed.
+
+(** unguarded assignment: needs a target that cannot fail to convert *)
+Lemma set_arg_value_L m f v cast :
+  invc m = true ->
+  (forall r, get_arg m f = Some r -> vcond r v = true) ->
+  (forall r s, get_arg m f = Some r -> v = IStr s -> int_valued (r_spec r) = false) ->
+  L m (set_arg_value m f v cast).
+Proof.
+  intros I Hc Hn. pose proof (set_arg_value_R m f v cast I Hc) as R.
+  destruct (set_arg_value m f v cast); simpl; [exact R|].
+  destruct R as [_ [r [s [G [Iv Es]]]]]. rewrite (Hn r s G Es) in Iv. discriminate.
+Qed.
+
+(** the guarded assignment of see_value / see_positional_arg *)
+Lemma set_arg_value_checked_L m f v cast :
+  invc m = true ->
+  (forall r, get_arg m f = Some r -> vcond r v = true) ->
+  L m (checked (set_arg_value m f v cast)).
+Proof.
+  intros I Hc. pose proof (set_arg_value_R m f v cast I Hc) as R.
+  destruct (set_arg_value m f v cast) as [m'|e]; simpl; [exact R|].
+  destruct R as [-> _]. reflexivity.
 Qed.
 
 (** ** the enter actions *)
@@ -288,10 +312,10 @@ Proof.
   unfold flag_arg. rewrite F.
   destruct (get_arg m f) as [r|] eqn:G; [|simpl; split; [exact I | apply same_frame_refl]].
   destruct (takes_value (r_spec r) && negb (r_raw r) && negb (a_optional (r_spec r)));
-    [simpl; left; reflexivity|].
+    [simpl; reflexivity|].
   destruct (negb (r_raw r) && a_optional (r_spec r)) eqn:O;
     [|simpl; split; [exact I | apply same_frame_refl]].
-  apply set_arg_value_L; [exact I|].
+  apply set_arg_value_L; [exact I| |intros ? ? _ E; discriminate E].
   intros r' G'. rewrite G in G'. injection G' as <-.
   pose proof (invc_get_arg _ _ _ I G) as Okr. unfold rarg_ok, arg_wf in Okr.
   apply andb_true_iff in O. destruct O as [_ O].
@@ -310,7 +334,7 @@ Proof.
   intros I. unfold complete_context.
   destruct (m_cur m) as [k|] eqn:C; [|simpl; split; [exact I | apply same_frame_refl]].
   destruct (cur_ctx m) as [c|]; [|simpl; split; [exact I | apply same_frame_refl]].
-  destruct (has_missing c); [simpl; left; reflexivity|].
+  destruct (has_missing c); [simpl; reflexivity|].
   destruct (existsb (Nat.eqb k) (m_res m)); simpl;
     [split; [exact I | apply same_frame_refl] |].
   rewrite <- C. apply res_update_frame; exact I.
@@ -407,7 +431,7 @@ Proof.
   destruct (negb (a_optional (r_spec r))); [simpl; split; [exact I | apply same_frame_refl]|].
   destruct (r_raw r); [simpl; split; [exact I | apply same_frame_refl]|].
   match goal with |- L _ (if ?b then _ else _) => destruct b end;
-    simpl; [left; reflexivity | split; [exact I | apply same_frame_refl]].
+    simpl; [reflexivity | split; [exact I | apply same_frame_refl]].
 Qed.
 
 Lemma set_flag_frame m f g : invc m = true ->
@@ -517,7 +541,8 @@ Proof.
     destruct (takes_value (r_spec r)) eqn:Tv; [simpl; split; assumption|].
     assert (LL : L (set_flag m2 (Some f) false)
                    (set_arg_value (set_flag m2 (Some f) false) f (IBool (negb inverse)) true)).
-    { apply set_arg_value_L; [exact I3|]. intros r' G'. rewrite Ga in G'. injection G' as <-.
+    { apply set_arg_value_L; [exact I3| |intros ? ? _ E; discriminate E].
+      intros r' G'. rewrite Ga in G'. injection G' as <-.
       simpl. unfold takes_value in Tv.
       destruct (a_kind (r_spec r)); simpl; try reflexivity.
       destruct (a_incrementable (r_spec r)); [reflexivity | discriminate]. }
@@ -538,10 +563,10 @@ Lemma see_value_L tok m : invc m = true -> L m (see_value p tok m).
 Proof.
   intros I. unfold see_value.
   apply L_bind; [apply check_ambiguity_L; exact I|]. intros m1 I1 F1.
-  destruct (m_flag m1) as [f|] eqn:Fl; [|simpl; left; reflexivity].
-  destruct (flag_arg m1) as [r|]; [|simpl; left; reflexivity].
-  destruct (takes_value (r_spec r)); [|simpl; left; reflexivity].
-  apply L_bind; [apply set_arg_value_L; [exact I1 | reflexivity]|].
+  destruct (m_flag m1) as [f|] eqn:Fl; [|simpl; reflexivity].
+  destruct (flag_arg m1) as [r|]; [|simpl; reflexivity].
+  destruct (takes_value (r_spec r)); [|simpl; reflexivity].
+  apply L_bind; [apply set_arg_value_checked_L; [exact I1 | reflexivity]|].
   intros m2 I2 F2. simpl. apply set_flag_frame. exact I2.
 Qed.
 
@@ -551,7 +576,7 @@ Proof.
   destruct (invc_cur m I) as [k [c [C [N _]]]]. unfold cur_ctx. rewrite C, N.
   destruct (missing_positional (rc_args c)) as [|i l];
     [simpl; split; [exact I | apply same_frame_refl]|].
-  apply set_arg_value_L; [exact I | reflexivity].
+  apply set_arg_value_checked_L; [exact I | reflexivity].
 Qed.
 
 Lemma nth_error_tl {A} (l : list A) k x : nth_error l (S k) = Some x -> In x (tl l).
@@ -573,11 +598,11 @@ Proof.
   destruct (is_ctx_name (p_ctxs p) tok) eqn:CN.
   { apply see_context_G; auto. unfold running in R. destruct (m_st m); simpl in *; congruence. }
   destruct (init_ctx_of m) as [ic|] eqn:IC.
-  2:{ destruct (p_ignore p); [apply see_unknown_G; assumption | simpl; left; reflexivity]. }
+  2:{ destruct (p_ignore p); [apply see_unknown_G; assumption | simpl; reflexivity]. }
   destruct (find_flag (rc_args ic) tok) as [i|] eqn:FF.
-  2:{ destruct (p_ignore p); [apply see_unknown_G; assumption | simpl; left; reflexivity]. }
+  2:{ destruct (p_ignore p); [apply see_unknown_G; assumption | simpl; reflexivity]. }
   unfold find_flag in FF. destruct (find_index_some _ _ _ FF) as [r [Nr _]]. rewrite Nr.
-  destruct (String.eqb (arg_name (r_spec r)) "help").
+  destruct (String.eqb (arg_name (r_spec r)) "help") eqn:Hh.
   - destruct (invc_cur m I) as [k [c [C [N _]]]].
     assert (CC : cur_ctx m = Some c) by (unfold cur_ctx; rewrite C; exact N).
     rewrite CC.
@@ -590,7 +615,14 @@ Proof.
         unfold get_ctx in N. apply nth_error_tl in N. rewrite forallb_forall in I4.
         specialize (I4 c N). unfold named in I4. destruct (rc_name c); [eauto | discriminate]. }
     destruct Nm as [n ->].
-    apply L_G with (m := m); [exact R|]. apply set_arg_value_L; [exact I | reflexivity].
+    assert (GA : get_arg m (0, i) = Some r).
+    { unfold get_arg. cbn [fst snd]. unfold init_ctx_of in IC. destruct (m_init m); [|discriminate].
+      rewrite IC. exact Nr. }
+    apply L_G with (m := m); [exact R|]. apply set_arg_value_L; [exact I | reflexivity|].
+    intros r0 s0 G0 _. rewrite GA in G0. injection G0 as <-.
+    pose proof (invc_get_arg _ _ _ I GA) as Okr. unfold rarg_ok, arg_wf in Okr.
+    rewrite !andb_true_iff, negb_true_iff in Okr. destruct Okr as [[_ Hx] _].
+    rewrite Hh, andb_true_r in Hx. exact Hx.
   - apply L_G with (m := m); [exact R|]. apply switch_to_flag_L; [exact I|].
     unfold flag_known. rewrite IC. simpl. unfold find_flag. rewrite FF. apply orb_true_r.
 Qed.
@@ -668,42 +700,26 @@ Qed.
 
 End Errors.
 
-(** ** The two instances *)
+(** ** The theorem *)
 
 (** The boolean guard of the partial theorem: a parser with an initial context
-    whose arguments (and those of the task contexts) are well-formed, and --
-    [strict] -- none of them is int-valued. *)
-Definition c07_guard (strict : bool) (cs : list ctxspec) (init : option ctxspec) : bool :=
-  parser_ok cs && parser_wf strict (mkP cs init false).
+    whose arguments (and those of the task contexts) are well-formed.
+    Int-valued arguments are allowed. *)
+Definition c07_guard (cs : list ctxspec) (init : option ctxspec) : bool :=
+  parser_ok cs && parser_wf (mkP cs init false).
 
-Lemma parser_wf_ignore strict cs init ign :
-  parser_wf strict (mkP cs init ign) = parser_wf strict (mkP cs init false).
+Lemma parser_wf_ignore cs init ign :
+  parser_wf (mkP cs init ign) = parser_wf (mkP cs init false).
 Proof. reflexivity. Qed.
 
-Theorem only_parse_or_value_errors cs init ign argv :
-  c07_guard false cs init = true ->
-  match parser_parse cs init ign argv with
-  | Ok _ => True
-  | Err e => e = EParse \/ e = EValue
-  end.
-Proof.
-  unfold c07_guard, parser_parse. rewrite andb_true_iff. intros [Pk W]. rewrite Pk.
-  rewrite <- (parser_wf_ignore false cs init ign) in W.
-  pose proof (parse_argv_errors false (mkP cs init ign) W argv) as H.
-  destruct (parse_argv (mkP cs init ign) argv); [exact I|].
-  destruct H as [H|[_ H]]; auto.
-Qed.
-
-Theorem only_parse_errors_int_free cs init ign argv :
-  c07_guard true cs init = true ->
+Theorem only_parse_errors cs init ign argv :
+  c07_guard cs init = true ->
   match parser_parse cs init ign argv with
   | Ok _ => True
   | Err e => e = EParse
   end.
 Proof.
   unfold c07_guard, parser_parse. rewrite andb_true_iff. intros [Pk W]. rewrite Pk.
-  rewrite <- (parser_wf_ignore true cs init ign) in W.
-  pose proof (parse_argv_errors true (mkP cs init ign) W argv) as H.
-  destruct (parse_argv (mkP cs init ign) argv); [exact I|].
-  destruct H as [H|[H _]]; [exact H | discriminate].
+  rewrite <- (parser_wf_ignore cs init ign) in W.
+  exact (parse_argv_errors (mkP cs init ign) W argv).
 Qed.
